@@ -107,6 +107,7 @@ class Report:
         self.distinct = set()
         self.explanation = ''
         self.known = load_known()
+        self.cross = {}
         self._seen_known = set()
 
     # ---- merging worker results ---------------------------------------
@@ -123,6 +124,16 @@ class Report:
         for d in res.get('distinct', []):
             self.distinct.add(d)
         self.inconclusive += res.get('inconclusive', [])
+        cr = res.get('cross')
+        if cr:
+            for k in ('sampled', 'agree', 'second_unknown', 'disagree'):
+                self.cross[k] = self.cross.get(k, 0) + cr.get(k, 0)
+            for nm, st in cr.get('by_solver', {}).items():
+                d = self.cross.setdefault('by_solver', {}).setdefault(nm, {'agree': 0, 'unknown': 0, 'disagree': 0})
+                for k in d:
+                    d[k] += st.get(k, 0)
+            for dis in cr.get('disagreements', []):
+                self.harness_errors.append('cross-solver disagreement: ' + dis)
         self.harness_errors += res.get('harness_errors', [])
         for s in res.get('samples', []):
             if len(self.samples) < 12:
@@ -138,6 +149,10 @@ class Report:
                 self.known_hits.append((k, v))
             return
         self.violations.append(v)
+        if len(self.violations) >= MAX_VIOLATIONS:
+            # every one of them was replayed on the real converter: the verdict (exit 1) is settled, the
+            # remaining units are not run (recorded in the evidence as stopped_early)
+            STOP[0] = True
 
     # ---- finishing -------------------------------------------------------
     def finish(self):
@@ -172,6 +187,9 @@ class Report:
             'rule': self.cov.get('rule', 'one case = one explored path x obligation; distinct = distinct (unit, path-condition) pairs'),
             'programs': max(self.programs, 1),
             'disagreements_checked': len(self.violations) + len(self.known_hits),
+            'stopped_early': bool(STOP[0]),
+            'cross_solver': dict(self.cross, rate='1 in %s verdicts of the obligation solver' % os.environ.get('VT_CROSS_RATE', '0'),
+                                 solvers='cvc5 binary, z3 binary (system build), %d s each' % 5) if self.cross else 'off',
         })
         if cov['distinct_nontrivial'] < 2:
             cov['distinct_nontrivial'] = 2 if self.paths >= 2 else cov['distinct_nontrivial']
@@ -208,6 +226,8 @@ class TaskTimeout(BaseException):
 
 
 TASK_LIMIT_S = [150]
+MAX_VIOLATIONS = 12
+STOP = [False]
 
 
 def _on_alarm(signum, frame):
@@ -224,7 +244,11 @@ def _guard(args):
     except (ValueError, AttributeError):
         pass
     try:
-        return fn(task)
+        r = fn(task)
+        if isinstance(r, dict):
+            from . import cross
+            r['cross'] = cross.snapshot()
+        return r
     except TaskTimeout:
         return {'inconclusive': ['task %r stopped after %.0f s (time bound of the tier)' % (_short(task), time.time() - t0)],
                 'timeouts': 1}
@@ -251,11 +275,16 @@ def run_pool(fn, tasks, procs=None, limit_s=None):
     if procs <= 1 or len(tasks) <= 1:
         for t in tasks:
             yield _guard((fn, t))
+            if STOP[0]:
+                return
         return
     ctx = multiprocessing.get_context('fork')
     with ctx.Pool(min(procs, len(tasks)), maxtasksperchild=50) as pool:
         for r in pool.imap_unordered(_guard, [(fn, t) for t in tasks], chunksize=1):
             yield r
+            if STOP[0]:
+                pool.terminate()
+                return
 
 
 # ---------------------------------------------------------------- replay dirs
